@@ -357,8 +357,9 @@ func (c *userTypesCollector) collectUserTypesFromTypeConstraint(node internalSch
 		return
 	}
 
+	// The value may be empty (`type: ""`): the compiler reports it.
 	name := typ.Bytes().Unquote().String()
-	if name[0] == '@' {
+	if len(name) > 0 && name[0] == '@' {
 		c.addType(name)
 	}
 }
